@@ -17,3 +17,16 @@ pub fn timestamp_to_system_time(ticks: u64) -> SystemTime {
     let bytes = ticks.to_le_bytes();
     Timestamp::read_from(&mut &bytes[..]).unwrap().to_system_time()
 }
+
+use crate::internal::column::Column;
+use crate::internal::table::{Row, Table};
+use crate::internal::value::Value;
+
+/// Builds a `Row` of an anonymous-schema table with the given column names.
+pub fn make_row(table_name: &str, names: &[String], values: Vec<Value>) -> Row {
+    let columns: Vec<Column> = names
+        .iter()
+        .map(|name| Column::build(name.as_str()).nullable().string(0))
+        .collect();
+    Row::new(Table::new(table_name.to_string(), columns, false), values)
+}
